@@ -117,12 +117,15 @@ inductive Path where
   | staticKwProp    -- `static::$p`            CallStaticKeywordProperty.GetValue
   | staticKwMeth    -- `static::m()`           CallStaticKeywordMethod.GetValue
   | parentMeth      -- `parent::m()`           CallParentMethod.GetValue
+  | unsetProp       -- `unset($o->p)`          UnsetStatement.GetValue, CallObjectProperty argument
+  | unsetIdx        -- `unset($o['p'])`        UnsetStatement.GetValue, IndexExpression argument
+  | iterate         -- `foreach ($o as $k => $v)` reaching the member  ForeachStatement.foreachClassValue
 deriving DecidableEq, Repr, Inhabited
 
 def Path.all : List Path :=
   [.propRead, .propWrite, .methCall, .dynPropRead, .dynPropWrite, .dynMeth, .idxRead, .idxWrite,
    .staticPropRead, .staticPropWrite, .staticMeth, .selfProp, .selfMeth, .staticKwProp, .staticKwMeth,
-   .parentMeth]
+   .parentMeth, .unsetProp, .unsetIdx, .iterate]
 
 /-- the modifier test one arm of one access node performs -/
 inductive Check where
@@ -200,7 +203,7 @@ def arrowCheck : Recv → Check
   | .this => .unchecked
   | .other => .hier true true false
 
-/-- what the source says after `fixes/C07-*` (dynamic property read and `A::m()` test the modifier) -/
+/-- what the source says after `fixes/C07-*` (dynamic property read, `A::m()` and `unset` test the modifier) -/
 def pinned : Table := fun p r =>
   match p with
   | .propRead | .propWrite | .methCall | .dynPropRead | .dynPropWrite | .dynMeth => arrowCheck r
@@ -210,6 +213,9 @@ def pinned : Table := fun p r =>
   | .staticMeth => .hier true true true
   | .selfProp | .selfMeth | .staticKwProp | .staticKwMeth => .classCtxOnly
   | .parentMeth => .privDenied
+  | .unsetProp => arrowCheck r
+  | .unsetIdx => (match r with | .this => .unchecked | .other => .pubOnly)
+  | .iterate => .unchecked
 
 /-! ### effects: a denied access changes nothing -/
 
@@ -235,6 +241,12 @@ deriving DecidableEq, Repr
 
 def Store.set (σ : Store) (k : Name) (v : Val) : Store := { σ with cell := fun x => if x = k then v else σ.cell x }
 def Store.bump (σ : Store) (k : Name) : Store := { σ with calls := fun x => if x = k then σ.calls x + 1 else σ.calls x }
+
+/-- what a successful operation does to the store -/
+def Store.after (σ : Store) : Op → Store
+  | .read _ => σ
+  | .write k v _ => σ.set k v
+  | .call k => σ.bump k
 
 /-- `SetValue`: type test first (typed paths only), then the modifier test, then the store;
 `GetValue` of a call node: modifier test, then the body runs (once) -/
